@@ -17,6 +17,14 @@ func ExtActions(thorough bool) []*wire.N {
 	for _, k := range ActionKinds[25:] {
 		out = append(out, Action(k, len(out)))
 	}
+	// output to every reserved port with the max_len values that have a meaning of their own (0: no
+	// bytes, 0xffe5: the largest, 0xffff: no buffering) - combinations a one-field-at-a-time variation
+	// of an ordinary output action never reaches
+	for _, port := range []uint64{0xffffff00, 0xfffffff8, 0xfffffff9, 0xfffffffa, 0xfffffffb, 0xfffffffc, 0xfffffffd, 0xfffffffe, 0xffffffff} {
+		for _, ml := range []uint64{0, 1, 0xffe5, 0xffff} {
+			out = append(out, wire.New("act_output").Set("Port", port).Set("MaxLen", ml))
+		}
+	}
 	for p := uint64(0); p < 64; p++ {
 		out = append(out, Nat(p, 1+p%2, int(p)))
 	}
@@ -120,6 +128,46 @@ func MatchRep() []*wire.N {
 		OxmByName("NXM_NX_REG0", true, 11),     // 12
 		OxmExperimenter(42, false, 12),         // 10, experimenter class
 	}
+}
+
+// UnequalMaskFields returns instances of the variable-width fields whose value and mask differ in width.
+func UnequalMaskFields() []*wire.N {
+	var out []*wire.N
+	for _, in := range OxmInfos() {
+		if in.Width != 0 {
+			continue
+		}
+		for _, w := range [][2]int{{8, 4}, {4, 8}, {1, 3}, {64, 60}} {
+			n := Oxm(in, true, w[0], w[0])
+			n.SetB("Mask", Pat(w[1], w[0]+w[1]))
+			out = append(out, n)
+		}
+		break // one index suffices: the eight share their constructor
+	}
+	return out
+}
+
+// HasUnequalMask reports whether a tree holds a masked field whose mask is not as wide as its value.
+func HasUnequalMask(n *wire.N) bool {
+	if n == nil {
+		return false
+	}
+	if n.K == "oxm" && n.U["HasMask"] == 1 && len(n.B["Mask"]) != len(n.B["Value"]) {
+		return true
+	}
+	for _, c := range n.S {
+		if HasUnequalMask(c) {
+			return true
+		}
+	}
+	for _, l := range n.L {
+		for _, c := range l {
+			if HasUnequalMask(c) {
+				return true
+			}
+		}
+	}
+	return false
 }
 
 // AllMatchFields returns one instance per field of the table, unmasked and (where allowed) masked.
@@ -305,6 +353,13 @@ func Controller(thorough bool, expired func() bool, level func(name string, comp
 		yield(MultipartRequest(1, Match(f.Clone())))
 		yield(MultipartRequest(2, Match(f.Clone())))
 	}
+	// variable-width fields whose mask is narrower or wider than the value (the constructor takes
+	// both as they come): no two-way values - a receiver splits a masked payload in the middle - but
+	// what is sent must still declare the bytes it occupies. Alone, and followed by another field.
+	for _, f := range UnequalMaskFields() {
+		yield(FlowMod(0, Match(f.Clone())))
+		yield(FlowMod(0, Match(f.Clone(), OxmByName("OXM_OF_IN_PORT", false, 1)), Instr("instr_goto_table", 1)))
+	}
 	for _, k := range []string{"instr_goto_table", "instr_write_metadata", "instr_write_actions", "instr_apply_actions", "instr_meter", "instr_clear_actions"} {
 		yield(FlowMod(0, nil, Instr(k, 1)))
 	}
@@ -422,6 +477,17 @@ func Controller(thorough bool, expired func() bool, level func(name string, comp
 		b2 := BundleAdd(m.Clone(), 2)
 		b2.S["VendorData"].Add("Properties", prop(2), prop(4))
 		yield(b2)
+	}
+	// the embedded message need not end on a 64-bit boundary (a packet-out with 1..9 bytes of data, an
+	// echo-sized header alone): zero bytes up to the boundary stand between it and the first property
+	for dl := 0; dl <= 9; dl++ {
+		for np := 0; np <= 2; np++ {
+			b := BundleAdd(PacketOut(Payload(dl), true, Action("act_output", 1)), 1)
+			for i := 0; i < np; i++ {
+				b.S["VendorData"].Add("Properties", prop(3+i))
+			}
+			yield(b)
+		}
 	}
 	// the two sizes that bring the whole message to 65528 and 65535 bytes
 	for _, total := range []int{65528, 65535, 65527, 32768} {
